@@ -1191,3 +1191,101 @@ def rule_step_over_relative_to_match(ctx, rep, rid: str) -> None:
                     rep.ok(rid, key)
     if n < 1:
         raise AnalysisError(f"{rid}: no position update in a searching loop found")
+
+
+# ---- a numeric per-class measure is not handed out by a catch-all that straddles a sibling's distinction ----
+
+
+def _class_walks(ctx, ast_classes):
+    """Recursive methods of the regex compiler that judge a pattern node by its class: (method, parameter,
+    {class: answer text}, default return or None).  Answer text is the constant the branch returns, or
+    `<computed>` when it depends on the node."""
+    comp = ctx.tree.class_named("RegexCompiler")
+    out = []
+    for m in comp.methods.values():
+        if isinstance(m.node, ast.Lambda):
+            continue
+        ps = [p for p in m.params() if p != "self"]
+        if not ps:
+            continue
+        p = ps[0]
+        if not any(isinstance(c, ast.Call) and isinstance(c.func, ast.Attribute) and c.func.attr == m.name and norm(c.func.value) == "self" for c in m.own_nodes()):
+            continue
+        answers: Dict[str, str] = {}
+        default = None
+
+        def const_text(v) -> Optional[str]:
+            if isinstance(v, ast.Constant):
+                return repr(v.value)
+            if isinstance(v, ast.Tuple) and all(isinstance(e, ast.Constant) for e in v.elts):
+                return "(" + ", ".join(repr(e.value) for e in v.elts) + ")"
+            return None
+
+        def branch(stmts, named):
+            nonlocal default
+            for st in stmts:
+                if isinstance(st, ast.If):
+                    t = st.test
+                    if isinstance(t, ast.Call) and norm(t.func) == "isinstance" and len(t.args) == 2 and norm(t.args[0]) == p:
+                        k = t.args[1]
+                        cls = [k.id] if isinstance(k, ast.Name) else [e.id for e in getattr(k, "elts", []) if isinstance(e, ast.Name)]
+                        rets = [r for b in st.body for r in ast.walk(b) if isinstance(r, ast.Return)]
+                        texts = {const_text(r.value) if r.value is not None else "None" for r in rets}
+                        ans = texts.pop() if len(texts) == 1 and None not in texts else "<computed>"
+                        for c in cls:
+                            answers.setdefault(c, ans)
+                        branch(st.orelse, named)
+                        continue
+                if isinstance(st, ast.Return) and st.value is not None:
+                    default = st
+
+        branch(m.body(), set())
+        if len([c for c in answers if c in ast_classes]) >= 3:
+            out.append((m, p, answers, default))
+    return out
+
+
+def rule_numeric_catch_all(ctx, rep, rid: str) -> None:
+    """The regex compiler has several small recursive walks that judge a pattern node by its class.  One that names
+    every class is a statement of how the classes differ (a back-reference may match nothing, a character always
+    consumes one).  A sibling that assigns a NUMBER (a width, a count) through its catch-all gives that number to
+    every class it does not name; if the fully explicit sibling tells two of those classes apart, the catch-all
+    contradicts it for one of them."""
+    rep.rule(rid, "a class-by-class walk of the regex compiler whose catch-all returns a numeric constant (a width, a count) covers only node classes that every fully explicit sibling walk answers alike; classes a sibling tells apart are named", floor=2)
+    par = ctx.tree.mod("regex.parser")
+    ast_classes = [name for name, ci in par.classes.items() if any("dataclass" in norm(d) for d in ci.node.decorator_list)]
+    if len(ast_classes) < 10:
+        raise AnalysisError(f"{rid}: only {len(ast_classes)} regex AST classes found")
+    walks = _class_walks(ctx, ast_classes)
+    explicit = [(m, a) for m, p, a, d in walks if all(c in a for c in ast_classes)]
+    if len(walks) < 2 or not explicit:
+        raise AnalysisError(f"{rid}: {len(walks)} class walks, {len(explicit)} fully explicit (expected the advance / capture analyses)")
+
+    def numeric(v) -> bool:
+        if isinstance(v, ast.Constant):
+            return isinstance(v.value, (int, float)) and not isinstance(v.value, bool)
+        return isinstance(v, ast.Tuple) and v.elts and all(numeric(e) for e in v.elts)
+
+    for m, p, answers, default in walks:
+        key = f"{m.qual}:catch-all"
+        bucket = [c for c in ast_classes if c not in answers]
+        if default is None or not bucket or not numeric(default.value):
+            rep.ok(rid, key, {"named": sorted(c for c in answers if c in ast_classes), "catch_all": None if default is None else short(default, 30)})
+            continue
+        clash = None
+        for e, ea in explicit:
+            if e is m:
+                continue
+            groups: Dict[str, List[str]] = {}
+            for c in bucket:
+                if ea[c] != "<computed>":
+                    groups.setdefault(ea[c], []).append(c)
+            if len(groups) > 1:
+                clash = (e, groups)
+                break
+        if clash is None:
+            rep.ok(rid, key, {"catch_all": short(default, 30), "covers": bucket})
+        else:
+            e, groups = clash
+            parts = "; ".join(f"{'/'.join(cs)} -> {a}" for a, cs in sorted(groups.items()))
+            rep.bad(rid, key, f"{m.qual} gives `{short(default.value, 20)}` to every class it does not name ({', '.join(bucket)}), but {e.name} tells them apart ({parts}): for one of the groups the number is wrong (a back-reference is not one character wide: it may match nothing or many)", f"{m.module.rel}:{default.lineno}")
